@@ -91,6 +91,7 @@ pub fn run_case(
     tag: &dyn Fn(&[i128]) -> String,
 ) -> Option<Ints> {
     ledger_reset();
+    crate::types::SALT.store(0, std::sync::atomic::Ordering::Relaxed);
     alloc::tab_reset();
     let qmark = alloc::q_mark();
     let tracked = |f: &mut dyn FnMut()| {
